@@ -41,12 +41,12 @@ pub fn replay(case: &Value) -> Vec<Obs> {
     let child = Command::new(&bin).arg(&path).stdin(Stdio::piped()).stdout(Stdio::piped()).stderr(Stdio::piped()).spawn();
     let mut child = match child { Ok(c) => c, Err(e) => { let _ = std::fs::remove_file(&path); return vec![Obs::bad("TOOL", "spawn", format!("{}: {}", bin, e))]; } };
     { let mut si = child.stdin.take().unwrap(); let _ = si.write_all(stdin_text.as_bytes()); }
-    // the session is short: a process that has not ended after 20 s is looping
+    // the session is short: a process that has not ended after 100 s is looping (a loaded machine needs seconds for what takes 0.3 s)
     let start = std::time::Instant::now();
     let status = loop {
         match child.try_wait() {
             Ok(Some(st)) => break Some(st),
-            Ok(None) => { if start.elapsed().as_secs() > 20 { let _ = child.kill(); let _ = child.wait(); break None; } std::thread::sleep(std::time::Duration::from_millis(5)); }
+            Ok(None) => { if start.elapsed().as_secs() > 100 { let _ = child.kill(); let _ = child.wait(); break None; } std::thread::sleep(std::time::Duration::from_millis(5)); }
             Err(_) => break None,
         }
     };
